@@ -187,7 +187,8 @@ def run_dynamic(spec):
                 # the login shim: the remote command line runs in a fresh shell with an empty environment
                 os.environ["PATH"] = os.path.join(core.VERIF, "vlib", "shims") + os.pathsep + os.environ.get("PATH", "")
                 host = rng.choice(("fakehost", "-p 2222 me@fakehost", "me@fakehost")) if spec["path"] == "ssh" else "default"
-                extra = rng.choice(("", "//ssh_config=/nonexistent/ssh.cfg", "//chdir=" + os.path.join(core.VERIF, "vlib"), "//env:VERIF_X=1"))
+                extra = rng.choice(("", "//ssh_config=/nonexistent/ssh.cfg", "//chdir=" + os.path.join(core.VERIF, "vlib"), "//env:VERIF_X=1", "//dont_write_bytecode",
+                                    "//dont_write_bytecode//nice=1"))
                 # "python3" is found on the login shell's PATH: the distribution's interpreter, which has no execnet
                 pyarg = rng.choice((f"{py} -S -E", "python3", "~/bin/py -S -E", "$HOME/bin/py -S -E"))
                 if pyarg == "python3":
